@@ -32,7 +32,7 @@ func (g *G) Insert() ([]Tok, *ast.InsertStatement) {
 		}
 		t = cat(t, sym("("), commaJoin(cs), sym(")"))
 	}
-	if g.chance(30, "insselect") {
+	if !g.F.Flat && g.chance(30, "insselect") {
 		g.use("insert_select")
 		g.ForceFrom = true
 		qt, qn := g.setOpOrSelect(true)
@@ -56,7 +56,7 @@ func (g *G) Insert() ([]Tok, *ast.InsertStatement) {
 			g.use("multi_row_values")
 		}
 	}
-	if !g.F.NoOnConflict && g.chance(25, "onconflict") {
+	if !g.F.NoOnConflict && !g.F.Flat && g.chance(25, "onconflict") {
 		g.use("on_conflict")
 		oc := &ast.OnConflict{}
 		t = cat(t, g.kw("ON", "CONFLICT"))
@@ -139,7 +139,11 @@ func Statement(g *G) Stmt {
 	var t []Tok
 	var n ast.Statement
 	kind := ""
-	switch k := g.intn(20, "stmtkind"); {
+	k := g.intn(20, "stmtkind")
+	if g.F.Flat && k >= 15 && k < 18 {
+		k = 0 // UPDATE has SET after its first token
+	}
+	switch {
 	case k < 12:
 		t, n = g.Query(false)
 		kind = "query"
